@@ -63,7 +63,11 @@ impl ResolvedCalendarFields {
             });
         }
 
-        let month_code = MonthCode::try_from_partial_date(partial_date)?;
+        let month_code = if partial_date.calendar.has_leap_months() {
+            MonthCode::try_from_partial_date_in_year(partial_date, &era_year)?
+        } else {
+            MonthCode::try_from_partial_date(partial_date)?
+        };
         let day = resolve_day(partial_date.day, resolve_type == ResolutionType::YearMonth)?;
         // TODO: Constrain day to calendar range for month?
 
@@ -251,6 +255,34 @@ impl MonthCode {
                 Ok(*month_code)
             }
             _ => Err(TemporalError::r#type()
+                .with_message("Month or monthCode is required to determine date.")),
+        }
+    }
+
+    /// Resolves `month` and `monthCode` for the calendars with leap months, where the ordinal
+    /// month of a month code depends on the year.
+    pub(crate) fn try_from_partial_date_in_year(
+        partial_date: &PartialDate,
+        era_year: &EraYear,
+    ) -> TemporalResult<Self> {
+        let calendar = &partial_date.calendar;
+        match (partial_date.month, partial_date.month_code) {
+            (Some(month), None) => calendar
+                .month_code_of_ordinal_month(era_year, month)?
+                .ok_or(TemporalError::range().with_message("Month not in a valid range.")),
+            (None, Some(month_code)) => {
+                month_code.validate(calendar)?;
+                Ok(month_code)
+            }
+            (Some(month), Some(month_code)) => {
+                month_code.validate(calendar)?;
+                if calendar.ordinal_month_of_month_code(era_year, &month_code)? != Some(month) {
+                    return Err(TemporalError::range()
+                        .with_message("Month and monthCode values could not be resolved."));
+                }
+                Ok(month_code)
+            }
+            (None, None) => Err(TemporalError::r#type()
                 .with_message("Month or monthCode is required to determine date.")),
         }
     }
